@@ -233,3 +233,42 @@ def follow_method_returns(ctx, ret: ast.Return, depth: int = 0) -> list:
             ast.fix_missing_locations(r2)
             out.extend(follow_method_returns(ctx, r2, depth + 1))
     return out or [ret]
+
+
+def map_fill_sites(scope_nodes: list, map_name: str, parents: dict) -> list:
+    """[(store node, enclosing loops innermost first)] for everything that puts entries into the dict `map_name` inside the
+    given statements: `m[k] = v`, `m = {k: v for ...}` (the comprehension counts as its own loop), `m.update(...)`,
+    `m.setdefault(...)`"""
+    out = []
+    for root in scope_nodes:
+        for n in ast.walk(root):
+            store = None
+            loops = []
+            if isinstance(n, ast.Assign) and any(isinstance(t, ast.Subscript) and isinstance(t.value, ast.Name) and t.value.id == map_name for t in n.targets):
+                store = n
+            elif isinstance(n, ast.Assign) and any(isinstance(t, ast.Name) and t.id == map_name for t in n.targets) and isinstance(n.value, ast.DictComp):
+                store = n
+                loops.append(n.value)
+            elif isinstance(n, ast.Call) and isinstance(n.func, ast.Attribute) and n.func.attr in ("update", "setdefault") \
+                    and isinstance(n.func.value, ast.Name) and n.func.value.id == map_name:
+                store = n
+            if store is None:
+                continue
+            x = store
+            while x in parents:
+                x = parents[x]
+                if isinstance(x, (ast.For, ast.While)):
+                    loops.append(x)
+                if isinstance(x, (ast.FunctionDef, ast.AsyncFunctionDef)):
+                    break
+            out.append((store, loops))
+    return out
+
+
+def iterates_vector(loop, vector_texts: set) -> bool:
+    """does the loop (a `for` statement or a dict comprehension) run over the argument vector itself -- `args[1:]`, possibly
+    through map(str, .) / enumerate(.) / list(.) -- rather than over a part or a regrouping of it?"""
+    it = loop.iter if isinstance(loop, ast.For) else (loop.generators[0].iter if isinstance(loop, ast.DictComp) and len(loop.generators) == 1 else None)
+    while isinstance(it, ast.Call) and isinstance(it.func, ast.Name) and it.func.id in ("map", "enumerate", "list", "tuple", "iter") and it.args:
+        it = it.args[1] if it.func.id == "map" and len(it.args) >= 2 else it.args[0]
+    return it is not None and unparse(it) in vector_texts
